@@ -102,13 +102,22 @@ def gen_case(rng):
     dt_kind = "f8"
     if nf_kind == "none" and not cov and rng.random() < 0.15:
         # other numeric dtypes / memory layouts of the caller's arrays
-        dt_kind = str(rng.choice(["f4", "int", "strided"]))
+        dt_kind = str(rng.choice(["f4", "int", "strided", "readonly", "bigendian"]))
         if dt_kind == "f4":
             rv = np.asarray(rvv, dtype=np.float32) * ru
             err = np.asarray(err.value, dtype=np.float32) * eu
         elif dt_kind == "int":
             rv = (rng.permutation(n) * 3 + 7).astype(np.int64) * ru
             err = rng.integers(1, 9, n).astype(np.int64) * eu
+        elif dt_kind == "readonly":
+            a_ = np.array(rvv, copy=True)
+            a_.setflags(write=False)                  # e.g. an array handed out by another library's cache
+            e_ = np.array(err.value, copy=True)
+            e_.setflags(write=False)
+            rv, err = a_ * ru, e_ * eu
+        elif dt_kind == "bigendian":
+            rv = np.asarray(rvv, dtype=">f8") * ru     # e.g. columns read from a FITS file
+            err = np.asarray(err.value, dtype=">f8") * eu
         else:
             big = np.zeros(2 * n)
             big[::2] = rvv
